@@ -177,7 +177,7 @@ func runC10(c *core.Ctx, o Options) {
 		paths, _ := an.EnumPaths(pi, 256)
 		var bad []string
 		nGap, nNoGap := 0, 0
-		inc := pi.Params[1].Name() + ".HeaderBuilder().MsgSeqNum()"
+		inc := an.Render(pi.Params[1]) + ".HeaderBuilder().MsgSeqNum()"
 		// the last received number: result #0 of the GetCurrSeqNum call
 		curr := ""
 		an.AllInstrs(pi, func(in ssa.Instruction) {
@@ -298,7 +298,7 @@ func checkStorageMessages(c *core.Ctx, rule string) {
 	if !c.Anchor("message store range lookup", fn != nil && len(fn.Params) == 4, "memory.Storage.Messages", posOf(fn)) {
 		return
 	}
-	from, to := fn.Params[2].Name(), fn.Params[3].Name()
+	from, to := an.Render(fn.Params[2]), an.Render(fn.Params[3])
 	paths, _ := an.EnumPaths(fn, 512)
 	var bad []string
 	okInv, okBeyond, okMissing := false, false, false
@@ -422,7 +422,7 @@ func (s *sess) checkSaveHandler(rule string) {
 			if save.Call.Args[1] != ssa.Value(an.HandlerArg(fn)) {
 				bad = append(bad, "the value saved is not the message being sent: "+an.Render(save.Call.Args[1]))
 			}
-			if r := an.Render(save.Call.Args[2]); r != an.HandlerArg(fn).Name()+".HeaderBuilder().MsgSeqNum()" {
+			if r := an.Render(save.Call.Args[2]); r != an.Render(an.HandlerArg(fn))+".HeaderBuilder().MsgSeqNum()" {
 				bad = append(bad, "the message is saved under "+r+", not under its own MsgSeqNum")
 			}
 			if sd := storageSide(save.Call.Args[0]); sd != "outgoing" {
@@ -473,7 +473,7 @@ func checkBatchDelivery(c *core.Ctx, rule string) {
 					continue
 				}
 				for _, ref := range *v.Referrers() {
-					if bo, ok := ref.(*ssa.BinOp); ok && bo.Op == token.LSS && an.Render(bo.Y) == "len("+sb.Params[1].Name()+")" {
+					if bo, ok := ref.(*ssa.BinOp); ok && bo.Op == token.LSS && an.Render(bo.Y) == "len("+an.Render(sb.Params[1])+")" {
 						bound = true
 					}
 				}
@@ -481,7 +481,7 @@ func checkBatchDelivery(c *core.Ctx, rule string) {
 			if bound {
 				ob.Ok("range over the whole batch")
 			} else {
-				ob.Fail("the loop does not run to len(%s)", sb.Params[1].Name())
+				ob.Fail("the loop does not run to len(%s)", an.Render(sb.Params[1]))
 			}
 		}
 	}
